@@ -15,7 +15,6 @@
 use crate::error::{QueryError, Result};
 use arrow::array::*;
 use arrow::datatypes::*;
-use std::sync::Arc;
 
 /// SIMD operation mode
 #[derive(Debug, Clone, Copy)]
@@ -54,7 +53,8 @@ pub fn detect_cpu_features() -> SimdMode {
     SimdMode::Scalar
 }
 
-/// SIMD-optimized filter operation
+/// Filter operation. Delegates to Arrow's `filter` kernel, which keeps
+/// selected NULL elements as NULLs and supports every array type.
 pub fn filter_simd(array: &dyn Array, predicate: &[bool]) -> Result<ArrayRef> {
     if array.len() != predicate.len() {
         return Err(QueryError::Execution(format!(
@@ -63,63 +63,12 @@ pub fn filter_simd(array: &dyn Array, predicate: &[bool]) -> Result<ArrayRef> {
             predicate.len()
         )));
     }
-
-    // For simplicity, just use standard Arrow filtering
-    // A full implementation would use SIMD intrinsics here
-    match array.data_type() {
-        DataType::Int64 => {
-            let int_array = array
-                .as_any()
-                .downcast_ref::<Int64Array>()
-                .ok_or_else(|| QueryError::Execution("Failed to downcast array".to_string()))?;
-
-            let mut values = Vec::new();
-            for (i, &valid) in predicate.iter().enumerate() {
-                if valid && !int_array.is_null(i) {
-                    values.push(int_array.value(i));
-                }
-            }
-
-            Ok(Arc::new(Int64Array::from(values)))
-        }
-        DataType::Float64 => {
-            let float_array = array
-                .as_any()
-                .downcast_ref::<Float64Array>()
-                .ok_or_else(|| QueryError::Execution("Failed to downcast array".to_string()))?;
-
-            let mut values = Vec::new();
-            for (i, &valid) in predicate.iter().enumerate() {
-                if valid && !float_array.is_null(i) {
-                    values.push(float_array.value(i));
-                }
-            }
-
-            Ok(Arc::new(Float64Array::from(values)))
-        }
-        DataType::Boolean => {
-            let bool_array = array
-                .as_any()
-                .downcast_ref::<BooleanArray>()
-                .ok_or_else(|| QueryError::Execution("Failed to downcast array".to_string()))?;
-
-            let mut values = Vec::new();
-            for (i, &valid) in predicate.iter().enumerate() {
-                if valid && !bool_array.is_null(i) {
-                    values.push(bool_array.value(i));
-                }
-            }
-
-            Ok(Arc::new(BooleanArray::from(values)))
-        }
-        _ => Err(QueryError::Execution(format!(
-            "Unsupported data type for SIMD filter: {:?}",
-            array.data_type()
-        ))),
-    }
+    let mask = BooleanArray::from(predicate.to_vec());
+    Ok(arrow::compute::filter(array, &mask)?)
 }
 
-/// SIMD-optimized comparison operation
+/// Comparison operation. Delegates to Arrow's comparison kernels: a NULL on
+/// either side yields NULL, floats compare in IEEE totalOrder.
 pub fn compare_simd(left: &dyn Array, right: &dyn Array, op: CompareOp) -> Result<BooleanArray> {
     if left.len() != right.len() {
         return Err(QueryError::Execution(format!(
@@ -128,15 +77,16 @@ pub fn compare_simd(left: &dyn Array, right: &dyn Array, op: CompareOp) -> Resul
             right.len()
         )));
     }
-
-    match op {
-        CompareOp::Eq => compare_eq(left, right),
-        CompareOp::Ne => compare_ne(left, right),
-        CompareOp::Lt => compare_lt(left, right),
-        CompareOp::Le => compare_le(left, right),
-        CompareOp::Gt => compare_gt(left, right),
-        CompareOp::Ge => compare_ge(left, right),
-    }
+    use arrow::compute::kernels::cmp;
+    let (l, r): (&dyn Datum, &dyn Datum) = (&left, &right);
+    Ok(match op {
+        CompareOp::Eq => cmp::eq(l, r),
+        CompareOp::Ne => cmp::neq(l, r),
+        CompareOp::Lt => cmp::lt(l, r),
+        CompareOp::Le => cmp::lt_eq(l, r),
+        CompareOp::Gt => cmp::gt(l, r),
+        CompareOp::Ge => cmp::gt_eq(l, r),
+    }?)
 }
 
 /// Comparison operation type
@@ -150,208 +100,21 @@ pub enum CompareOp {
     Ge,
 }
 
-fn compare_eq(left: &dyn Array, right: &dyn Array) -> Result<BooleanArray> {
-    match left.data_type() {
-        DataType::Int64 => {
-            let left_arr = left
-                .as_any()
-                .downcast_ref::<Int64Array>()
-                .ok_or_else(|| QueryError::Execution("Failed to downcast left".to_string()))?;
-            let right_arr = right
-                .as_any()
-                .downcast_ref::<Int64Array>()
-                .ok_or_else(|| QueryError::Execution("Failed to downcast right".to_string()))?;
-
-            let mut values = vec![false; left.len()];
-            for i in 0..left.len() {
-                values[i] = left_arr.value(i) == right_arr.value(i);
-            }
-
-            Ok(BooleanArray::from(values))
-        }
-        DataType::Float64 => {
-            let left_arr = left
-                .as_any()
-                .downcast_ref::<Float64Array>()
-                .ok_or_else(|| QueryError::Execution("Failed to downcast left".to_string()))?;
-            let right_arr = right
-                .as_any()
-                .downcast_ref::<Float64Array>()
-                .ok_or_else(|| QueryError::Execution("Failed to downcast right".to_string()))?;
-
-            let mut values = vec![false; left.len()];
-            for i in 0..left.len() {
-                values[i] = left_arr.value(i) == right_arr.value(i);
-            }
-
-            Ok(BooleanArray::from(values))
-        }
-        _ => Err(QueryError::Execution(format!(
-            "Unsupported type for EQ comparison: {:?}",
-            left.data_type()
-        ))),
-    }
-}
-
-fn compare_ne(left: &dyn Array, right: &dyn Array) -> Result<BooleanArray> {
-    let eq_result = compare_eq(left, right)?;
-    let mut values = vec![false; left.len()];
-    for i in 0..left.len() {
-        values[i] = !eq_result.value(i);
-    }
-    Ok(BooleanArray::from(values))
-}
-
-fn compare_lt(left: &dyn Array, right: &dyn Array) -> Result<BooleanArray> {
-    match left.data_type() {
-        DataType::Int64 => {
-            let left_arr = left
-                .as_any()
-                .downcast_ref::<Int64Array>()
-                .ok_or_else(|| QueryError::Execution("Failed to downcast left".to_string()))?;
-            let right_arr = right
-                .as_any()
-                .downcast_ref::<Int64Array>()
-                .ok_or_else(|| QueryError::Execution("Failed to downcast right".to_string()))?;
-
-            let mut values = vec![false; left.len()];
-            for i in 0..left.len() {
-                values[i] = left_arr.value(i) < right_arr.value(i);
-            }
-
-            Ok(BooleanArray::from(values))
-        }
-        DataType::Float64 => {
-            let left_arr = left
-                .as_any()
-                .downcast_ref::<Float64Array>()
-                .ok_or_else(|| QueryError::Execution("Failed to downcast left".to_string()))?;
-            let right_arr = right
-                .as_any()
-                .downcast_ref::<Float64Array>()
-                .ok_or_else(|| QueryError::Execution("Failed to downcast right".to_string()))?;
-
-            let mut values = vec![false; left.len()];
-            for i in 0..left.len() {
-                values[i] = left_arr.value(i) < right_arr.value(i);
-            }
-
-            Ok(BooleanArray::from(values))
-        }
-        _ => Err(QueryError::Execution(format!(
-            "Unsupported type for LT comparison: {:?}",
-            left.data_type()
-        ))),
-    }
-}
-
-fn compare_le(left: &dyn Array, right: &dyn Array) -> Result<BooleanArray> {
-    let lt_result = compare_lt(left, right)?;
-    let eq_result = compare_eq(left, right)?;
-    let mut values = vec![false; left.len()];
-    for i in 0..left.len() {
-        values[i] = lt_result.value(i) || eq_result.value(i);
-    }
-    Ok(BooleanArray::from(values))
-}
-
-fn compare_gt(left: &dyn Array, right: &dyn Array) -> Result<BooleanArray> {
-    compare_lt(right, left)
-}
-
-fn compare_ge(left: &dyn Array, right: &dyn Array) -> Result<BooleanArray> {
-    compare_le(right, left)
-}
-
-/// SIMD-optimized add operation
+/// Add operation. Delegates to Arrow's checked `add` kernel: NULL in, NULL
+/// out; integer overflow is an error rather than a wrap or a panic.
 pub fn add_simd(left: &dyn Array, right: &dyn Array) -> Result<ArrayRef> {
-    match left.data_type() {
-        DataType::Int64 => {
-            let left_arr = left
-                .as_any()
-                .downcast_ref::<Int64Array>()
-                .ok_or_else(|| QueryError::Execution("Failed to downcast left".to_string()))?;
-            let right_arr = right
-                .as_any()
-                .downcast_ref::<Int64Array>()
-                .ok_or_else(|| QueryError::Execution("Failed to downcast right".to_string()))?;
-
-            let mut values = Vec::with_capacity(left.len());
-            for i in 0..left.len() {
-                values.push(left_arr.value(i) + right_arr.value(i));
-            }
-
-            Ok(Arc::new(Int64Array::from(values)))
-        }
-        DataType::Float64 => {
-            let left_arr = left
-                .as_any()
-                .downcast_ref::<Float64Array>()
-                .ok_or_else(|| QueryError::Execution("Failed to downcast left".to_string()))?;
-            let right_arr = right
-                .as_any()
-                .downcast_ref::<Float64Array>()
-                .ok_or_else(|| QueryError::Execution("Failed to downcast right".to_string()))?;
-
-            let mut values = Vec::with_capacity(left.len());
-            for i in 0..left.len() {
-                values.push(left_arr.value(i) + right_arr.value(i));
-            }
-
-            Ok(Arc::new(Float64Array::from(values)))
-        }
-        _ => Err(QueryError::Execution(format!(
-            "Unsupported type for add: {:?}",
-            left.data_type()
-        ))),
-    }
+    let (l, r): (&dyn Datum, &dyn Datum) = (&left, &right);
+    Ok(arrow::compute::kernels::numeric::add(l, r)?)
 }
 
-/// SIMD-optimized multiply operation
+/// Multiply operation. Delegates to Arrow's checked `mul` kernel.
 pub fn multiply_simd(left: &dyn Array, right: &dyn Array) -> Result<ArrayRef> {
-    match left.data_type() {
-        DataType::Int64 => {
-            let left_arr = left
-                .as_any()
-                .downcast_ref::<Int64Array>()
-                .ok_or_else(|| QueryError::Execution("Failed to downcast left".to_string()))?;
-            let right_arr = right
-                .as_any()
-                .downcast_ref::<Int64Array>()
-                .ok_or_else(|| QueryError::Execution("Failed to downcast right".to_string()))?;
-
-            let mut values = Vec::with_capacity(left.len());
-            for i in 0..left.len() {
-                values.push(left_arr.value(i) * right_arr.value(i));
-            }
-
-            Ok(Arc::new(Int64Array::from(values)))
-        }
-        DataType::Float64 => {
-            let left_arr = left
-                .as_any()
-                .downcast_ref::<Float64Array>()
-                .ok_or_else(|| QueryError::Execution("Failed to downcast left".to_string()))?;
-            let right_arr = right
-                .as_any()
-                .downcast_ref::<Float64Array>()
-                .ok_or_else(|| QueryError::Execution("Failed to downcast right".to_string()))?;
-
-            let mut values = Vec::with_capacity(left.len());
-            for i in 0..left.len() {
-                values.push(left_arr.value(i) * right_arr.value(i));
-            }
-
-            Ok(Arc::new(Float64Array::from(values)))
-        }
-        _ => Err(QueryError::Execution(format!(
-            "Unsupported type for multiply: {:?}",
-            left.data_type()
-        ))),
-    }
+    let (l, r): (&dyn Datum, &dyn Datum) = (&left, &right);
+    Ok(arrow::compute::kernels::numeric::mul(l, r)?)
 }
 
-/// SIMD-optimized sum operation
+/// Sum operation. Delegates to Arrow's `sum` kernel: NULLs are skipped and an
+/// input with no non-NULL value sums to NULL, not 0.
 pub fn sum_simd(array: &dyn Array) -> Result<ScalarValue> {
     match array.data_type() {
         DataType::Int64 => {
@@ -359,30 +122,14 @@ pub fn sum_simd(array: &dyn Array) -> Result<ScalarValue> {
                 .as_any()
                 .downcast_ref::<Int64Array>()
                 .ok_or_else(|| QueryError::Execution("Failed to downcast array".to_string()))?;
-
-            let mut sum = 0i64;
-            for i in 0..array.len() {
-                if !array.is_null(i) {
-                    sum += int_array.value(i);
-                }
-            }
-
-            Ok(ScalarValue::Int64(Some(sum)))
+            Ok(ScalarValue::Int64(arrow::compute::sum(int_array)))
         }
         DataType::Float64 => {
             let float_array = array
                 .as_any()
                 .downcast_ref::<Float64Array>()
                 .ok_or_else(|| QueryError::Execution("Failed to downcast array".to_string()))?;
-
-            let mut sum = 0.0f64;
-            for i in 0..array.len() {
-                if !array.is_null(i) {
-                    sum += float_array.value(i);
-                }
-            }
-
-            Ok(ScalarValue::Float64(Some(sum)))
+            Ok(ScalarValue::Float64(arrow::compute::sum(float_array)))
         }
         _ => Err(QueryError::Execution(format!(
             "Unsupported type for sum: {:?}",
@@ -391,15 +138,9 @@ pub fn sum_simd(array: &dyn Array) -> Result<ScalarValue> {
     }
 }
 
-/// SIMD-optimized count operation
+/// Count of non-NULL elements.
 pub fn count_simd(array: &dyn Array) -> Result<i64> {
-    let mut count = 0i64;
-    for i in 0..array.len() {
-        if !array.is_null(i) {
-            count += 1;
-        }
-    }
-    Ok(count)
+    Ok((array.len() - array.null_count()) as i64)
 }
 
 /// Scalar value for aggregate results
